@@ -361,15 +361,17 @@ def parseEnvVal : String → Option EnvVal
   | "0" => some (.dir 0) | "1" => some (.dir 1) | "2" => some (.dir 2) | "3" => some (.dir 3)
   | _ => none
 
-def parsePEnv (s : String) : Option PEnv :=
+def parsePEnv (s : String) : Option (PEnv × Option EnvVal) :=
   match s.toList with
-  | ['x', a, 'h', b] => do pure ⟨← parseEnvVal (String.singleton a), ← parseEnvVal (String.singleton b)⟩
+  | ['x', a, 'h', b] => do pure (⟨← parseEnvVal (String.singleton a), ← parseEnvVal (String.singleton b)⟩, none)
+  | ['x', a, 'h', b, 'd', c] => do
+    pure (⟨← parseEnvVal (String.singleton a), ← parseEnvVal (String.singleton b)⟩, some (← parseEnvVal (String.singleton c)))
   | _ => none
 
 def parseAssign (s : String) : Option (EnvVar × EnvVal) :=
   match s.splitOn "=" with
   | [k, v] => do
-    let var ← (match k with | "x" => some EnvVar.xdg | "h" => some .home | "o" => some .other | _ => none)
+    let var ← (match k with | "x" => some EnvVar.xdg | "h" => some .home | "o" => some .other | "d" => some .data | _ => none)
     let val ← parseEnvVal v
     if val = .unset then none else pure (var, val)
   | _ => none
@@ -390,7 +392,7 @@ def parseEnvFiles (s : String) : Option (List EnvFile) :=
 def parseRSCfg (force : Bool) (s : String) : Option Load :=
   match s.toList.span Char.isDigit with
   | (num, p :: rest) =>
-    if num.isEmpty || !isPersistFlag p || !(rest == [] || rest == ['x']) then none else
+    if num.isEmpty || !isPersistFlag p || !(rest == [] || rest == ['x'] || rest == ['k']) then none else
     some { cfg := str s, force := force, accepted := rest != ['x'], nonNil := true, persistCfg := p != 'n', allowPersist := true }
   | _ => none
 
@@ -423,36 +425,90 @@ def parseRSEvent (s : String) : Option RSEvent :=
     | none => (parseRSCaddyfile c).map (.start (r == "r"))
   | _ => none
 
-def rsState (d : CDisk) (e : PEnv) (files : List EnvFile) : String :=
-  "{a=" ++ contentName (d (writerDir e files)).path ++ ",b=" ++ contentName (d (appConfigDir e)).path ++ "}"
+/-- does the config (its bytes are its token) carry the pki app? -/
+def hasPKI (cfg : Bytes) : Bool := cfg.getLast? == some 107   -- 'k'
+
+structure RSWorld where
+  disk : CDisk
+  roots : DataDir → Option Nat
+  nroots : Nat
+  run : Option AState
+
+def rootName : Option Nat → String
+  | none => "-"
+  | some r => toString r
+
+def rsState (pki : Bool) (w : RSWorld) (e : PEnv) (data : Option EnvVal) (files : List EnvFile) : String :=
+  "{a=" ++ contentName (w.disk (writerDir e files)).path ++ ",b=" ++ contentName (w.disk (appConfigDir e)).path
+    ++ (if pki then ",ra=" ++ rootName (w.roots (storageDir data e files)) ++ ",rb=" ++ rootName (w.roots (appDataDir data e)) else "")
+    ++ "}"
 
 /-- resumed bytes are loaded with forceReload; bytes that are not a config of this protocol are
     not loadable -/
 def rsAsLoad (b : Bytes) : Load :=
+  if hasPKI b then
+    match loadOfContent b.dropLast with
+    | some l => { l with cfg := b }
+    | none => { cfg := b, force := true, accepted := false, nonNil := true, persistCfg := true, allowPersist := true }
+  else
   match loadOfContent b with
   | some l => l
   | none => { cfg := b, force := true, accepted := false, nonNil := true, persistCfg := true, allowPersist := true }
 
-def rsOut (e : PEnv) (files : List EnvFile) : List RSEvent → Option AState → CDisk → List String
-  | [], _, _ => []
-  | .kill :: evs, _, d => ("K" ++ rsState d e files) :: rsOut e files evs none d
-  | .push l :: evs, none, d => ("P=norun" ++ rsState d e files) :: rsOut e files evs none d
-  | .push l :: evs, some a, d =>
-    (("P=" ++ (if (loadStep codeStyle l none a).res == .rejected then "rej" else "ok")
-        ++ rsState (d.set (writerDir e files) (loadStep codeStyle l none a).st.fs) e files)) ::
-      rsOut e files evs (some (loadStep codeStyle l none a).st) (d.set (writerDir e files) (loadStep codeStyle l none a).st.fs)
-  | .start r cfg :: evs, _, d =>
-    if (firstLoad codeReadAt rsAsLoad ⟨e, files, r, cfg⟩ d).accepted then
-      ("S=" ++ bytesToString (firstLoad codeReadAt rsAsLoad ⟨e, files, r, cfg⟩ d).cfg
-          ++ rsState (processRun codeReadAt rsAsLoad ⟨e, files, r, cfg⟩ [] d) e files) ::
-        rsOut e files evs
-          (some (loadStep codeStyle (firstLoad codeReadAt rsAsLoad ⟨e, files, r, cfg⟩ d) none ⟨none, d (writerDir e files)⟩).st)
-          (processRun codeReadAt rsAsLoad ⟨e, files, r, cfg⟩ [] d)
-    else ("S=fail" ++ rsState d e files) :: rsOut e files evs none d
+/-- a config with the pki app came up: its root is the stored one of the data directory, else new -/
+def withRoot (w : RSWorld) (cfg : Bytes) (dir : DataDir) : RSWorld × String :=
+  if hasPKI cfg then
+    ({ w with roots := (useRoot w.roots dir w.nroots).2
+              nroots := if (w.roots dir).isSome then w.nroots else w.nroots + 1 },
+     "/r" ++ toString (useRoot w.roots dir w.nroots).1)
+  else (w, "")
+
+def rsOut (pki : Bool) (e : PEnv) (data : Option EnvVal) (files : List EnvFile) : List RSEvent → RSWorld → List String
+  | [], _ => []
+  | .kill :: evs, w => ("K" ++ rsState pki w e data files) :: rsOut pki e data files evs { w with run := none }
+  | .push l :: evs, w =>
+    match w.run with
+    | none => ("P=norun" ++ rsState pki w e data files) :: rsOut pki e data files evs w
+    | some a =>
+      if (loadStep codeStyle l none a).res == .rejected then
+        ("P=rej" ++ rsState pki w e data files) :: rsOut pki e data files evs w
+      else
+        ("P=ok" ++ (withRoot { w with disk := w.disk.set (writerDir e files) (loadStep codeStyle l none a).st.fs
+                                      run := some (loadStep codeStyle l none a).st }
+                      (if (loadStep codeStyle l none a).res == .same then [] else l.cfg) (storageDir data e files)).2
+          ++ (if (loadStep codeStyle l none a).res == .same && hasPKI l.cfg then
+                "/r" ++ rootName (w.roots (storageDir data e files)) else "")
+          ++ rsState pki (withRoot { w with disk := w.disk.set (writerDir e files) (loadStep codeStyle l none a).st.fs
+                                            run := some (loadStep codeStyle l none a).st }
+                      (if (loadStep codeStyle l none a).res == .same then [] else l.cfg) (storageDir data e files)).1 e data files) ::
+          rsOut pki e data files evs
+            (withRoot { w with disk := w.disk.set (writerDir e files) (loadStep codeStyle l none a).st.fs
+                               run := some (loadStep codeStyle l none a).st }
+              (if (loadStep codeStyle l none a).res == .same then [] else l.cfg) (storageDir data e files)).1
+  | .start r cfg :: evs, w =>
+    if (firstLoad codeReadAt rsAsLoad ⟨e, files, r, cfg⟩ w.disk).accepted then
+      ("S=" ++ bytesToString (firstLoad codeReadAt rsAsLoad ⟨e, files, r, cfg⟩ w.disk).cfg
+          ++ (withRoot { w with disk := processRun codeReadAt rsAsLoad ⟨e, files, r, cfg⟩ [] w.disk }
+                (firstLoad codeReadAt rsAsLoad ⟨e, files, r, cfg⟩ w.disk).cfg (storageDir data e files)).2
+          ++ rsState pki (withRoot { w with disk := processRun codeReadAt rsAsLoad ⟨e, files, r, cfg⟩ [] w.disk }
+                (firstLoad codeReadAt rsAsLoad ⟨e, files, r, cfg⟩ w.disk).cfg (storageDir data e files)).1 e data files) ::
+        rsOut pki e data files evs
+          { (withRoot { w with disk := processRun codeReadAt rsAsLoad ⟨e, files, r, cfg⟩ [] w.disk }
+                (firstLoad codeReadAt rsAsLoad ⟨e, files, r, cfg⟩ w.disk).cfg (storageDir data e files)).1 with
+            run := some (loadStep codeStyle (firstLoad codeReadAt rsAsLoad ⟨e, files, r, cfg⟩ w.disk) none
+                          ⟨none, w.disk (writerDir e files)⟩).st }
+    else ("S=fail" ++ rsState pki w e data files) :: rsOut pki e data files evs { w with run := none }
+
+def rsUsesPKI : List RSEvent → Bool
+  | [] => false
+  | .start _ l :: es => hasPKI l.cfg || rsUsesPKI es
+  | .push l :: es => hasPKI l.cfg || rsUsesPKI es
+  | .kill :: es => rsUsesPKI es
 
 def handleRS (env files evs : String) : String :=
   match parsePEnv env, parseEnvFiles files, (evs.splitOn ";").mapM parseRSEvent with
-  | some e, some fs, some es => " ".intercalate (rsOut e fs es none CDisk.empty)
+  | some (e, data), some fs, some es =>
+    " ".intercalate (rsOut (rsUsesPKI es) e data fs es ⟨CDisk.empty, fun _ => none, 0, none⟩)
   | _, _, _ => "bad-op"
 
 def handle : List String → String
